@@ -1,7 +1,7 @@
 (* C04: ties of the edit-history model to tables generated from the source, and
    the one place where the two variable-order disciplines differ. *)
 From Coq Require Import List ZArith QArith Qcanon Bool Arith Lia.
-From Dimod Require Import Base.Util Model.Poly Model.View Model.Hist Gen.Gen_QmLimits
+From Dimod Require Import Base.Util Model.Poly Model.View Model.Hist Gen.Gen_QmLimits Gen.Gen_RelabelRules
   Proofs.PolyFacts Proofs.HistFacts Proofs.HistWf Proofs.HistWf2.
 Import ListNotations.
 Open Scope Qc_scope.
@@ -44,3 +44,28 @@ Qed.
 
 (* both disciplines keep every history well formed (wf_reachable covers ORelabelPy and ORelabelIntsPy),
    and on a state where they are applied to the same variable list they agree up to order *)
+
+(* ---------- the error conditions of relabel_variables and resize (generated from the source) ---------- *)
+Lemma negb_existsb_map {A B : Type} (f : B -> bool) (g : A -> B) (l : list A) :
+  negb (existsb f (map g l)) = forallb (fun t => negb (f (g t))) l.
+Proof. induction l as [|a l IH]; [reflexivity|]. cbn [map existsb forallb]. rewrite negb_orb, IH. reflexivity. Qed.
+
+Theorem relabel_rule_from_source m s : relabel_ok m s = negb (gen_relabel_raises m s).
+Proof.
+  unfold relabel_ok, gen_relabel_raises, gen_relabel_dup, gen_relabel_clash.
+  rewrite negb_orb, negb_involutive, negb_existsb_map. reflexivity.
+Qed.
+
+Theorem relabel_raises_iff m s h :
+  snd (step s (h, ORelabel m)) = (if gen_relabel_raises m s then Raised BValue else Ok).
+Proof.
+  cbn [step]. unfold m_relabel. rewrite relabel_rule_from_source. destruct (gen_relabel_raises m s); reflexivity.
+Qed.
+
+Theorem resize_raises_iff n fresh s h :
+  is_bqm s = true ->
+  snd (step s (h, OResize n fresh)) = (if gen_resize_raises n then Raised BValue else Ok).
+Proof.
+  intros Hb. cbn [step]. rewrite Hb. unfold m_resize, gen_resize_raises. destruct (n <? 0)%Z; [reflexivity|].
+  destruct (Z.to_nat n <=? num_variables s)%nat; reflexivity.
+Qed.
